@@ -22,8 +22,10 @@ for i, l in enumerate(log, 1):
     prop = ", ".join(sorted(set(f['property'] for f in fs))) or "?"
     what = (fs[0]['what'] if fs else subj).replace("|", "/")
     out.append("| %d | `%s` | %s | %s |" % (i, h, prop, what[:420]))
-out += ["", "Known findings (genuine; recorded rather than repaired because no small, safe patch exists - both concern how granule-position based",
-        "trimming works, which `block.c` itself documents as 'not foolproof', and the C08 one is a documented fallback of the page seek):", ""]
+out += ["", "Known findings (genuine; recorded rather than repaired because no small, safe patch exists): the C11 pair and the begin-trimmed-link group (C07, C20)",
+        "concern how granule-position based trimming works - `block.c` itself calls it 'not foolproof', and a begin trim can only drop what is still pending in the decoder",
+        "when the first granule position arrives, while vorbisfile hands audio out packet by packet; repairing that means buffering a page's worth of decoded audio in",
+        "vorbisfile or libvorbis. The C08 one is a documented fallback of the page seek. Each key names the input class, so a different failure of the same property is still reported:", ""]
 for f in k:
     if f['status'] == 'known':
         out.append("* **%s** `%s` - %s" % (f['property'], f['key'], f['what']))
@@ -86,6 +88,18 @@ out += ["", "Changes that were missed at first and what was strengthened:", "",
         "  (manager armed although management was switched off by control request; 256 channels accepted) - both configurations added to C05; `C10_r4m1` / `C10_r4m2` (`ov_read` packs the first block after a link change with the old",
         "  channel count; streaming follows a foreign BOS serial) - C10 reads once per case through the integer interface and multiplexes foreign streams with either BOS order; `C16_r4m1` (a refused repeat of the comment header wipes",
         "  what was read) - C16 offers a repeated header packet in 30 % of cases.",
+        "* Round 5 (all 20 properties, 40 changes; 19 caught as the checks stood, 9 more by another property's check - the same refused-`blockin`, failed-`ov_test_open`, `errno` and multiplexed-length mechanisms were rediscovered under",
+        "  several properties): strengthened for `C15_r5m1` (extrapolation guard wrong for totals of 9-15 samples: tiny totals added to C04 and C15), `C05_r5m1` / `C05_r5m2` (truncation not charged back; refused direct packet request leaves",
+        "  empty candidates: C05 got the biting-maximum stratum and offers every third block of a managed stream to `vorbis_analysis(vb,&op)` first), `C11_r5m1` (trim excess computed in `int`: granule offsets up to 2^40 in C11),",
+        "  `C11_r5m2` (end-of-stream flag latched across a restart: mode c07b rewinds after reading to the end and compares the second pass with the first), `C12_r5m2` (failed seeks leave `current_link=-1`: C12 makes the no-I/O queries",
+        "  after every failed call), `C13_r5m1` (failed `ov_test_open` not cleaned up: a later link's headers cut, and the close callback must not run for a failed open even at the final clear), `C16_r5m2` (zero-length entries read",
+        "  back as NULL: reported instead of crashing the harness), `C10_r5m1` (filter callback applied before the length clip: C17 reads through `ov_read_filter` with a halving filter), `C07_r5m2` (EOS of a foreign stream in mid-link",
+        "  ends the Vorbis link for a byte seek: C09 ends foreign streams in mid-link and judges 40 byte seeks per multiplexed chain), `C09_r5m1` (bisection stalls on maximum-size pages: a 100-200 KB comment in a later link),",
+        "  `C06_r5m2` (end trim taken from the front when the only granule position is on the final packet: a third of the C06 decodes use that convention and the last 2048 samples are judged on their own).",
+        "  Not detected by any check: `C18_r5m2` (uninitialised lap buffer for a time-based lapped seek from an unprimed handle at the end of the data - the pipeline added for it does not reach the state), `C19_r5m1` (lap data",
+        "  from the wrong place when the old handle sits at the end of a trimmed stream - C19 does not judge the lapped region's content for old positions at the end of the stream, where 'the audio that would have been read next'",
+        "  is the decoder's hidden tail), `C03_r5m2` (endless discard loop in `ov_pcm_seek` on a phantom tail followed by an undecodable link; undecodable links and overstated final granule positions were added to C03, the",
+        "  combination did not come up in a quick run). `C15_r5m2` is outside the property as stated (section 13).",
         "<!-- AUTOGEN-END -->"]
 p = os.path.join(V, 'DESIGN.md')
 s = open(p).read()
